@@ -341,6 +341,29 @@ def run_scoped_exact():
             if cur is None: continue
             for op2 in firsts:
                 step(cur, op2, (text, [list(op)]))
+# =================================================================================== C04 / C05 (fourteenth round): the set is reached through a NAME, and the
+# name is bound more than once on the way (an outer let above a lambda / assert / call and an inner let; two nested `with`s): the edit lands in the
+# set Nix's scoping names — the innermost binding — and nowhere else.  Expected texts are written down, compared modulo white space.
+NAMED_TARGETS = [
+    ('let a = { x = 1; y = 1; }; in { z }: let a = { x = 2; y = 2; }; in a', ('set', 'x', '9'), 'let a = { x = 1; y = 1; }; in { z }: let a = { x = 9; y = 2; }; in a'),
+    ('let a = { x = 1; y = 1; }; in { z }: let a = { x = 2; y = 2; }; in a', ('rm', 'y'), 'let a = { x = 1; y = 1; }; in { z }: let a = { x = 2; }; in a'),
+    ('let a = { x = 1; y = 1; }; in { z }: let a = { x = 2; y = 2; }; in a', ('set', 'w', '3'), 'let a = { x = 1; y = 1; }; in { z }: let a = { x = 2; y = 2; w = 3; }; in a'),
+    ('let a = { x = 1; }; in assert c; let a = { x = 2; }; in a', ('set', 'x', '9'), 'let a = { x = 1; }; in assert c; let a = { x = 9; }; in a'),
+    ('let a = { x = 1; }; in { z }: let a = { x = 2; }; in f a', ('set', 'x', '9'), 'let a = { x = 1; }; in { z }: let a = { x = 9; }; in f a'),
+    ('let a = { x = 1; }; in (let a = { x = 2; }; in a)', ('set', 'x', '9'), 'let a = { x = 1; }; in (let a = { x = 9; }; in a)'),
+    ('let b = { x = 1; }; in { z }: let a = { x = 2; }; in a', ('set', 'x', '9'), 'let b = { x = 1; }; in { z }: let a = { x = 9; }; in a'),
+    ('with { a = { x = 1; }; }; with { a = { y = 2; }; }; f a', ('set', 'n', '3'), 'with { a = { x = 1; }; }; with { a = { y = 2; n = 3; }; }; f a'),
+    ('with { a = { x = 1; y = 0; }; }; with { a = { y = 2; z = 3; }; }; a', ('rm', 'y'), 'with { a = { x = 1; y = 0; }; }; with { a = { z = 3; }; }; a'),
+    ('{ p }: let lib = { k = 1; }; in with lib; let args = { x = 1; }; in with lib; p.mk args', ('set', 'x', '2'), '{ p }: let lib = { k = 1; }; in with lib; let args = { x = 2; }; in with lib; p.mk args'),
+    ('with { lib = 1; }; with { a = { y = 2; }; }; f a', ('set', 'y', '5'), 'with { lib = 1; }; with { a = { y = 5; }; }; f a'),
+    ('with { a = { x = 1; }; }; with { b = { y = 2; }; }; a', ('set', 'x', '7'), 'with { a = { x = 7; }; }; with { b = { y = 2; }; }; a'),
+]
+def run_named_targets():
+    sq = lambda t: ' '.join(t.split())
+    for text, op, want in NAMED_TARGETS:
+        count('named-target/' + op[0]); res = apply(parse(text + '\n'), op)
+        if res[0] != 'ok': bad('an edit of a set reached through a name is refused: %s' % (res[1:],), doc=text, ops=[list(op)], expected=want); continue
+        if sq(res[1]) != sq(want): bad('an edit of a set reached through a name landed in another set (or changed something else)', doc=text, ops=[list(op)], out=res[1], expected=want)
 # =================================================================================== C09
 ML_VALUES = ['[\n"x86_64-linux"\n"aarch64-linux"\n]', '{\n  k = 1;\n  j = 2;\n}', "''\n  line\n''", 'assert x; y', 'let\n  c = 1;\nin\nc', 'x:\nx']
 def multiline_values():
@@ -592,6 +615,6 @@ def run_C19():
             bad('law check crashed: %s %s' % (type(e).__name__, e), doc=text)
         if len(samples) < 2: samples.append({'doc': text, 'law': law})
 
-{'C08': run_C08, 'C05': lambda: (run_tree('C05'), run_scoped_exact()), 'C04': lambda: (run_tree('C04'), run_scoped_frame(), run_scoped_exact()), 'C06': lambda: (run_tree('C06'), multiline_values()), 'C09': lambda: (run_C09(), run_scoped_exact()), 'C19': run_C19}[prop]()
+{'C08': run_C08, 'C05': lambda: (run_tree('C05'), run_scoped_exact(), run_named_targets()), 'C04': lambda: (run_tree('C04'), run_scoped_frame(), run_scoped_exact(), run_named_targets()), 'C06': lambda: (run_tree('C06'), multiline_values()), 'C09': lambda: (run_C09(), run_scoped_exact()), 'C19': run_C19}[prop]()
 print(json.dumps({'evaluations': sum(dist.values()), 'distinct': len(dist), 'distribution': dist, 'violations': viol[:6], 'n_violations': len(viol),
                   'known_hits': known, 'samples': samples}, default=str))
